@@ -177,6 +177,55 @@ fn run_preempt1(case: &Case, prop: &str, dump: Option<&str>) -> Value {
             }
         }
     }
+    // thorough tier: pairs of preemptions (bound 2) on a subsample: each chosen first switch is replayed while its own
+    // later opportunities are recorded, then every pair (first, later second) is run
+    if case.has_tag("preempt2") {
+        let firsts: Vec<sched::Decision> = {
+            let n = out0.opps.len();
+            let b = 24usize.min(n);
+            (0..b).map(|i| out0.opps[i * n / b.max(1)].clone()).collect()
+        };
+        for d1 in firsts {
+            let mut c1 = case.clone();
+            c1.plan = sched::Plan::Scripted { decisions: vec![d1.clone()], oversleeps: vec![] };
+            c1.params.record_opps = true;
+            let (o1, _, _) = evaluate(&c1);
+            let later: Vec<&sched::Decision> = o1.opps.iter().filter(|d| !(d.th == d1.th && d.pt == d1.pt && d.occ == d1.occ)).collect();
+            let n = later.len();
+            let b = 24usize.min(n);
+            for i in 0..b {
+                let d2 = later[i * n / b].clone();
+                let mut c2 = case.clone();
+                c2.plan = sched::Plan::Scripted { decisions: vec![d1.clone(), d2], oversleeps: vec![] };
+                let (o, a, _) = evaluate(&c2);
+                evals += 1;
+                *faults.entry("forced pair of preemptions".into()).or_insert(0) += 1;
+                let s2 = summarise(&c2, &o, &a, prop);
+                add_maps(&s2, &mut faults, &mut probes);
+                keys.push(format!("{:016x}|{:016x}", c2.workload_hash(), o.sig));
+                steps += o.steps;
+                switches += o.switches;
+                polls += o.polls;
+                sim_ns += o.now;
+                gos += a.accepted_gos;
+                answered += a.answered_gos;
+                if a.viols.iter().any(|v| v.prop == prop) {
+                    for v in s2["viols"].as_array().unwrap() {
+                        if !viols.iter().any(|x| x["rule"] == v["rule"]) {
+                            viols.push(v.clone());
+                        }
+                    }
+                    if !dumped {
+                        dumped = true;
+                        if let Some(d) = dump {
+                            let path = format!("{}/{}-{}.case.json", d, prop, case.seed);
+                            let _ = std::fs::write(&path, serde_json::to_string_pretty(&c2.to_json()).unwrap());
+                        }
+                    }
+                }
+            }
+        }
+    }
     keys.sort();
     keys.dedup();
     sum["viols"] = json!(viols);
